@@ -4,3 +4,4 @@ pub mod refcodec;
 pub mod runner;
 pub mod sim;
 pub mod wire;
+pub mod peer;
